@@ -18,6 +18,7 @@ import Fir.Model.SimdU16x1
 import Fir.Model.SimdU16x4
 import Fir.Model.SimdU16x2
 import Fir.Model.SimdU16x3
+import Fir.Model.SimdU16x4A
 namespace Fir
 
 /-- C02 tolerance between two back-ends: integers identical, f32 a few ulps of a re-associated f64 sum -/
@@ -250,6 +251,23 @@ def handleKernel (fs : List (String × String)) : String :=
                   return some s!"lane model of the SSE4.1 U16x3 horizontal kernels: pixel ({x},{y}) channel {ch}: model={px.getD ch 0} got={got[(y * dw + x) * 3 + ch]!}"
           return none
         else none
+      -- RGBA16 on AVX2, horizontal pass: four-row blocks keep two rows per 256-bit register (each half = the SSE4.1 row),
+      -- leftover rows go through the AVX2 one-row kernel (two half accumulators joined at the end)
+      let lane164a : Option String :=
+        if p.kind == .u16 ∧ p.n == 4 ∧ ext == "avx2" ∧ pass == "h" ∧ got.size == dw * dh * 4 then Id.run do
+          let q := normalize32 c
+          for y in [0:dh] do
+            let row : List Int := (List.range (sw * 4)).map fun i => src[(offset + y) * sw * 4 + i]!
+            for x in [0:dw] do
+              let (start, ks) := q.chunks.getD x (0, #[])
+              let px := if y < dh - dh % 4 then SimdU16x4.pixel q.precision row start ks.toList
+                        else SimdU16x4A.pixelA q.precision row start ks.toList
+              for ch in [0:4] do
+                if px.getD ch 0 ≠ got[(y * dw + x) * 4 + ch]! then
+                  return some s!"lane model of the AVX2 U16x4 horizontal kernels: pixel ({x},{y}) channel {ch}: model={px.getD ch 0} got={got[(y * dw + x) * 4 + ch]!}"
+          return none
+        else none
+      let lane163 := match lane163 with | some e => some e | none => lane164a
       let lane162 := match lane162 with | some e => some e | none => lane163
       let lane164 := match lane164 with | some e => some e | none => lane162
       let lane16 := match lane16 with | some e => some e | none => lane164
